@@ -46,6 +46,9 @@ class SimFS:
         # io_fault(task, op) -> errno | None : an I/O error reported by that system call
         # (fsync: the data was already handed to the file; write: nothing was written)
         self.io_fault: Callable[[Any, str], int | None] | None = None
+        # slow(task, op) -> seconds | None : that system call takes so long (slow disk, NFS
+        # server hiccup); the caller is alive and simply waits
+        self.slow: Callable[[Any, str], float | None] | None = None
         self._ino = 0
         self._mod = 0
         self._fd = 100
@@ -158,6 +161,11 @@ class SimFS:
 
     def fsync(self, fd: int) -> None:
         self._seam("fsync")
+        if self.slow is not None:
+            d = self.slow(self.sim.cur, "fsync")
+            if d:
+                self.sim.count("fs.slow@fsync")
+                self.sim.sleep(float(d))
         if self.io_fault is not None:
             en = self.io_fault(self.sim.cur, "fsync")
             if en:
